@@ -9,6 +9,7 @@ from core import Family, Gen, tok_expr, spec_diagram, enumerate_diagrams, small_
 from semantics import IntFunctor, wire_labels
 from props.c05 import simulate
 from props import c06_scale as sc
+from props import c06_conv as cv
 
 PROP = "C06"
 CAP = 400          # steps read from a normalize() generator before giving up
@@ -385,24 +386,53 @@ def run(tier, seed, replay=None):
                 "bubble / shuffled order, with boxes that widen and narrow their branch) at growing "
                 "sizes, up to > 1100 passes in quick, compared with their closed-form normal forms; "
                 "non-trivial there = more than one pass (low-stack part: passes > 1.5 x the lowered "
-                "recursion limit)" % CAP)
+                "recursion limit); CONVENTIONS stream: normal_form as a METHOD of monoidal / rigid / "
+                "tensor / circuit / zx diagrams (grown from each class's own boxes, with yankable "
+                "cup/cap pairs), keywords normalizer= (monoidal.Diagram.normalize, the class's own, "
+                "functools.partial with left baked in, lambda, recording and step-bounded wrappers, "
+                "None, positional) and left=; non-trivial there = the given normalizer's trace has "
+                ">= 1 step; DISCONNECTED stream: scalars, closed loops nested / side by side, "
+                "independent components, a scalar inside a connected diagram, each also after random "
+                "walks of legal exchanges; non-trivial there = the trace leaves the input and cycles "
+                "elsewhere (tail-then-cycle)" % CAP)
     rep.partial = ["termination for connected diagrams (C06_termination) and canonicity "
                    "(C06_canonicity) are NOT proved; supported by the class exploration below",
                    "the interpreter's stack (recursion limit) is outside the Lean model: the large and "
                    "low-stack parts of the SCALING stream are oracle-only (closed-form normal forms, "
                    "checked independently to be well typed, in the class and redex-free); the model is "
-                   "compared on the mid-size members only (value and full trace)"]
+                   "compared on the mid-size members only (value and full trace)",
+                   "CONVENTIONS stream: tensor / circuit / zx receivers are outside the typed Lean "
+                   "models of those classes here; the model is compared on what the MONOIDAL normal "
+                   "form sees (every box, cup, gate, spider as a generic box with its arity): value or "
+                   "NotImplementedError of d.normal_form(normalizer=monoidal.Diagram.normalize, "
+                   "left=..); the class's own normalize (snake removal) is C07's subject: here only "
+                   "`the result is the last step of the trace of the normalizer that was given`",
+                   "the wall-clock budget around plain calls (interval timer) is outside the model; "
+                   "the step-bounded normalizer is the deterministic form of the same demand"]
     rep.assumptions = ["SCALING low-stack part: an implementation may use stack proportional to the "
                        "SIZE of the diagram (limit = 50 frames + 2 per box) but not to the number of "
                        "passes; the closed forms are THE normal forms by uniqueness of the redex-free "
-                       "member of a connected class (arXiv:1804.07832)"]
+                       "member of a connected class (arXiv:1804.07832)",
+                       "`non-termination is reported`: a trace whose first repeated yield has index T "
+                       "must be answered (fixed point or NotImplementedError) within 10(T+1)+100 "
+                       "rewrite steps of the given normalizer and within %.0f s of wall clock on "
+                       "diagrams of at most 12 boxes; T is found by the harness's own table of "
+                       "(boxes, offsets) keys over the normalize generator" % cv.GUARD_S]
     rep.lean = lean_obligations(PROP, thorough=(tier == "thorough"))
-    n_diagrams = 150 if tier == "quick" else 4000
-    n_classes = 25 if tier == "quick" else 1500
+    n_diagrams = 150 if tier == "quick" else 3000
+    n_classes = 25 if tier == "quick" else 900
     rng = random.Random(seed)
     drv = Driver()
     fam = Family("monoidal")
     strategy_differs = 0
+    import time
+    walls, tmark = {}, [time.time()]
+
+    def lap(name):
+        walls[name] = round(time.time() - tmark[0], 1)
+        tmark[0] = time.time()
+    walls["lean_s"] = rep.lean.get("wall_s")
+    rep.extra["walls"] = walls
     try:
         for k in range(n_diagrams):
             if k % 5 == 4:
@@ -463,13 +493,45 @@ def run(tier, seed, replay=None):
                     if not np.array_equal(F.eval(s), ref):
                         rep.fail("step_semantics_changed", case, "step %d" % idx)
                     prev = s
-                # -- normal_form: value / NotImplementedError
+                # -- normal_form: value / NotImplementedError (under a wall-clock budget: a trace
+                # that does not end must be REPORTED, a call that does not come back is a failure)
                 value = [None]
-
-                def thunk():
-                    value[0] = monoidal.Diagram.normal_form(d, left=left)
-                    return value[0]
-                real_nf = ser_result(thunk)
+                if not finished:
+                    # the deterministic form first: where does the trace repeat (own table of
+                    # keys), and is that reported within the step budget
+                    try:
+                        st2, rep_at, fin2 = cv.guarded(lambda: cv.read_trace(
+                            monoidal.Diagram.normalize(d, left=left), cv.step_limit(len(d.boxes))))
+                    except Exception as exc:
+                        rep.fail("normalize_raises:" + err_class(exc), case, repr(exc)[:200])
+                        continue
+                    if rep_at is None and not fin2:
+                        rep.count("unresolved_long_trace")
+                        continue
+                    bud = cv.budget_for(st2, rep_at, fin2)
+                    gotb = cv.outcome(lambda: monoidal.Diagram.normal_form(
+                        d, normalizer=cv.bounded(monoidal.Diagram.normalize, bud), left=left))
+                    if gotb[0] == "gaveup":
+                        rep.fail("nontermination_not_reported", dict(
+                            case, call="monoidal.Diagram.normal_form(d, normalizer=BOUNDED("
+                            "monoidal.Diagram.normalize, %d), left=%s)" % (bud, left)),
+                            "the trace repeats at step %r a diagram it yielded before; normal_form read "
+                            "%d steps without returning or raising NotImplementedError" % (rep_at, bud))
+                        continue
+                got = cv.outcome(lambda: monoidal.Diagram.normal_form(d, left=left),
+                                 risky=not finished)
+                if got[0] == "skipped":
+                    continue
+                if got[0] == "hang":
+                    rep.fail("nontermination_not_reported", case,
+                             "normalize yields more than %d steps; normal_form neither returned nor "
+                             "raised NotImplementedError within %.0f s" % (CAP, cv.GUARD_S))
+                    continue
+                if got[0] == "ok":
+                    value[0] = got[1]
+                    real_nf = "ok " + ser_diagram(got[1])
+                else:
+                    real_nf = "err " + ("notimpl" if got[0] == "notimpl" else got[1])
                 model_nf = drv.ask("eval " + tok_expr(("normal_form", e, left)))
                 if real_nf != model_nf:
                     rep.disagree("normal_form", case, real_nf[:300], model_nf[:300])
@@ -509,6 +571,7 @@ def run(tier, seed, replay=None):
                         except Exception as exc:
                             rep.fail("normal_form_raises:" + err_class(exc), case,
                                      "normal_form with the other preference raised %r" % (exc,))
+        lap("random_s")
         # ---- canonicity on whole interchanger classes of connected diagrams
         explored = exhaustive = members = 0
         while explored < n_classes:
@@ -543,6 +606,7 @@ def run(tier, seed, replay=None):
                     rep.fail("not_canonical", dict(expr=repr(e), left=left),
                              "%d distinct normal forms in one interchanger class" % len(nfs))
             rep.case("class " + tok_expr(e), len(cls) >= 2)
+        lap("classes_s")
         # ---- long traces: the spiral family (connected, worst case) and random members of its class
         spirals = 0
         for n in range(1, 5 if tier == "quick" else 7):
@@ -578,8 +642,17 @@ def run(tier, seed, replay=None):
                     rep.fail("not_canonical", dict(spiral=n, left=left),
                              "%d distinct normal forms in the class of spiral(%d)" % (len(nfs), n))
         rep.extra["spiral_members_normalised"] = spirals
+        lap("spirals_s")
         # ---- SCALING: worst-case families at growing sizes, closed forms, low recursion limit
         scaling_stream(rep, random.Random(rng.getrandbits(64)), drv, tier, seed)
+        # ---- CALLING CONVENTIONS: normal_form as a method of every class that inherits it, with
+        # its documented keywords; DISCONNECTED family: non-termination must be reported
+        lap("scaling_s")
+        cv.conventions_stream(rep, random.Random(rng.getrandbits(64)), drv, tier)
+        lap("conventions_s")
+        cv.disconnected_stream(rep, random.Random(rng.getrandbits(64)), drv, tier,
+                               [parallel_connected, twins])
+        lap("disconnected_s")
         # ---- exhaustive small scope: ALL diagrams over the 8-box signature up to 3 (quick) / 4
         # (thorough) boxes: traces accepted by the model, normal forms compared, and the space
         # partitioned into interchanger classes (closure under legal exchanges) to check
@@ -624,12 +697,19 @@ def run(tier, seed, replay=None):
                     if ans != "accepted terminal=1":
                         rep.disagree("rtrace-small", case, "accepted terminal=1", ans)
                     rep.case("small " + line[:200], len(steps) >= 1)
-                try:
-                    nf_of[(k, left)] = monoidal.Diagram.normal_form(d, left=left)
-                except NotImplementedError:
+                got = cv.outcome(lambda: monoidal.Diagram.normal_form(d, left=left),
+                                 risky=len(steps) > 40)
+                if got[0] == "ok":
+                    nf_of[(k, left)] = got[1]
+                elif got[0] == "notimpl":
                     nf_of[(k, left)] = None
-                except Exception as exc:
-                    rep.fail("normal_form_raises:" + err_class(exc), case, repr(exc)[:200])
+                elif got[0] == "hang":
+                    rep.fail("nontermination_not_reported", case,
+                             "normalize yields more than 40 steps (all diagrams of this scope that "
+                             "terminate do so earlier); normal_form neither returned nor raised "
+                             "NotImplementedError within %.0f s" % cv.GUARD_S)
+                elif got[0] == "exc":
+                    rep.fail("normal_form_raises:" + got[1], case, got[2])
         classes = {}
         for k in real:
             classes.setdefault(find(k), []).append(k)
@@ -647,6 +727,7 @@ def run(tier, seed, replay=None):
                 elif len(nfs) > 1:
                     rep.fail("not_canonical", dict(expr=repr(real[members[0]][0]), left=left),
                              "%d normal forms in one class (small scope)" % len(nfs))
+        lap("small_scope_s")
         rep.extra["exhaustive_small_scope"] = dict(
             diagrams=len(real), classes=len(classes), connected_classes=n_conn, exhaustive=True,
             scope="all diagrams over the 8-box signature, domains (), a, a@b, width <= 4, "
